@@ -1,5 +1,7 @@
 #!/usr/bin/env python3
-"""prints the prompt for an independent seeding agent: mk_seed_prompt.py Cxx <seedid>; also creates the worktree"""
+"""prints the prompt for an independent seeding agent: mk_seed_prompt.py Cxx <seedid> [<earlier seedid> ...]; also creates
+the worktree.  Earlier seed ids: their one-sentence summaries are quoted so that the new change targets a different clause /
+function of the property (nothing else from /verif is shown to the agent)."""
 import json, os, subprocess, sys
 pid, sid = sys.argv[1], sys.argv[2]
 here = os.path.dirname(os.path.dirname(os.path.abspath(__file__)))
@@ -11,4 +13,13 @@ text = "Title: %s\nStatement: %s\nQuantified over: %s\nCode areas involved: %s" 
     prop["title"], prop["statement"], prop["quantifier"]["text"], ", ".join(prop["anchors"]["files"]))
 t = open(os.path.join(here, "tools", "seed_prompt.txt")).read()
 t = t.replace("WORKTREE", wt).replace("SEEDID", sid).replace("PROPERTY_TEXT", text).replace("CXX", pid)
+prev = []
+for old in sys.argv[3:]:
+    mp = os.path.join(here, "seeded", old, "meta.json")
+    if os.path.exists(mp):
+        prev.append("- " + json.load(open(mp)).get("summary", ""))
+if prev:
+    t += ("\n\nIMPORTANT — earlier exercises already produced the following change(s) for this property.  Yours must be DIFFERENT in kind: "
+          "target a different clause of the property statement and a different function (preferably a different file) than these:\n"
+          + "\n".join(prev) + "\n")
 print(t)
